@@ -118,6 +118,17 @@ def translate(repo=None):
       if nflags > 1:
         raise TranslateError(f"class {st.name}: _FLAGS assigned twice")
       classes.append((st.name, flags))
+  # _IGNORED_EXCEPTION_TARGETS = (END_ASYNC_FOR, CLEANUP_THROW, SWAP): a tuple of opcode class names
+  ignored = None
+  for st in tree.body:
+    if isinstance(st, ast.Assign) and len(st.targets) == 1 and isinstance(st.targets[0], ast.Name) \
+       and st.targets[0].id == "_IGNORED_EXCEPTION_TARGETS":
+      if ignored is not None or not isinstance(st.value, ast.Tuple) or \
+         not all(isinstance(e, ast.Name) for e in st.value.elts):
+        raise TranslateError("_IGNORED_EXCEPTION_TARGETS is not a single tuple of class names")
+      ignored = [e.id for e in st.value.elts]
+  if ignored is None:
+    raise TranslateError("_IGNORED_EXCEPTION_TARGETS not found")
   if set(consts) != set(FLAG_NAMES):
     raise TranslateError("flag constants missing: %s" % sorted(set(FLAG_NAMES) - set(consts)))
   if opcode_cls is None:
@@ -169,8 +180,13 @@ def translate(repo=None):
   # a name for every class id (the ones in SPECIAL are what blocks.py / opcodes.py test with isinstance)
   for n, _ in classes:
     lines.append(f"Definition op_{n} : N := {ids[n]}.")
+  for n in ignored:
+    if n not in ids:
+      raise TranslateError("_IGNORED_EXCEPTION_TARGETS names an unknown class " + n)
+  lines.append("Definition ignored_exception_targets : list N := [" + "; ".join("op_" + n for n in ignored) + "].")
   lines.append("")
-  table = {"classes": classes, "masks": masks, "special": {sp: ids[sp] for sp in SPECIAL}, "ids": ids}
+  table = {"classes": classes, "masks": masks, "special": {sp: ids[sp] for sp in SPECIAL}, "ids": ids,
+           "ignored_exception_targets": ignored}
   return "\n".join(lines), table
 
 
